@@ -167,6 +167,76 @@ def oracle(c, ob, rng):
     return []
 
 
+KEYID = {'za': 200, 'zb': 201, 'g1': 210, 'g2': 211, 'g3': 212, 'x': 220, 'y': 221, 'z': 222, 'mass': 230,
+         'p': 231, 'holder': 12}
+
+
+def _tree(flat):
+    """{'a/b': v} (parents before children, dict order) -> nested [(key, path, v, children)]"""
+    root = {'v': flat[''], 'c': {}}
+    for k, v in flat.items():
+        if not k:
+            continue
+        node = root
+        for part in k.split('/'):
+            node = node['c'].setdefault(part, {'v': None, 'c': {}})
+        node['v'] = v
+    return root
+
+
+def render(c, ob):
+    from harness.common import cN, cZ, clist, cpair, copt, cbool
+    if not ob['steps'] or 'before' not in ob['steps'][0]:
+        return None
+
+    def rp(path):
+        return clist([cN(KEYID[k]) for k in path])
+    first = ob['steps'][0]['before']
+    uid = {v[0]: 1000 + i for i, v in enumerate(first.values())}
+    oid = {v[2]: 5000 + i for i, v in enumerate(first.values()) if v[1] == 'proc'}
+
+    def cnode(n):
+        i, kind, val = n['v']
+        if kind == 'var':
+            return '(CVar %s %s DSet)' % (cN(uid[i]), cZ(val))
+        if kind == 'proc':
+            return ('(CProc %s {| pi_step := false; pi_in_steps := false; pi_flow := None; pi_obj := %s |})'
+                    % (cN(uid[i]), cN(oid[val])))
+        return '(CDir %s false %s)' % (cN(uid[i]), clist([cpair(cN(KEYID[k]), cnode(x)) for k, x in n['c'].items()]))
+
+    exp = []
+    for st in ob['steps']:
+        if 'err' in st:
+            exp.append('None')
+            break
+        where = {v[0]: k for k, v in st['before'].items()}
+        objs = {v[2]: k for k, v in st['before'].items() if v[1] == 'proc'}
+
+        def prev(table, key):
+            p = table.get(key)
+            return copt(rp(p.split('/') if p else []) if p is not None else None)
+
+        def anode(n):
+            i, kind, val = n['v']
+            if kind == 'var':
+                return '(AVar %s %s)' % (prev(where, i), cZ(val))
+            if kind == 'proc':
+                return '(AProc %s %s false)' % (prev(where, i), prev(objs, val))
+            return '(ADir %s %s)' % (prev(where, i), clist([cpair(cN(KEYID[k]), anode(x)) for k, x in n['c'].items()]))
+        exp.append('(Some (%s, %s))' % (anode(_tree(st['after'])), clist([rp(p.split('/')) for p in st['table']])))
+    hist = clist([cpair(rp([frm]), clist(['(%s N %s %s)' % (
+        'OpMoveP' if len(src) > 1 else 'OpMove', rp(src) if len(src) > 1 else cN(KEYID[src[0]]), rp([to]))]))
+        for frm, src, to in c['moves'][:len(exp)]])
+    return '(HNest %s 9000 %s %s)' % (cnode(_tree(first)), hist, clist(exp))
+
+
+def model_output(c, ob):
+    from harness import common, struct
+    t = render(c, ob)
+    return {'agree(tree,table) per update': common.coq_eval('STRUCT', struct.IMPORTS, 'diagnose %s' % t)[:400],
+            'model': common.coq_eval('STRUCT', struct.IMPORTS, 'model_out_nest %s' % t)[:5000]}
+
+
 def nontrivial(c, ob):
     return any(len(src) == 2 for _, src, _ in c['moves']) and len(ob['steps']) >= 1
 
